@@ -1080,6 +1080,7 @@ func runC07(c *Ctx) error {
 	}
 	c.Note("%d builder configurations", len(cases))
 	c07AliasRun(c)
+	c07DoorsRun(c)
 	return nil
 }
 
@@ -1237,6 +1238,13 @@ func c07Cases(c *Ctx) []c07Case {
 				add(c07Case{B: bUDiv, Tgt: 0, Opw: []int{w, w}, Dsw: []int{w, w}})
 				add(c07Case{B: bIDiv, Tgt: 0, Opw: []int{w, w}, Dsw: []int{w, w}})
 			}
+		}
+	}
+	// (2b) NewMultiplier's arrayTreshold argument (utils.Params.CircMultArrayTreshold): below 8 the
+	// per-width table / default 21 is used, otherwise the value itself
+	for _, w := range []int{12, 22} {
+		for _, thr := range []int{3, 7, 9, 22, 100} {
+			add(c07Case{B: bMult, Tgt: 0, Opw: []int{w, w}, Dsw: []int{2 * w}, Prm: []int{thr}})
 		}
 	}
 	// (3) GMW divider: ROM boundary (n = 3, 4, 8, 9), iteration-count boundaries
